@@ -49,7 +49,7 @@ class C16(core.Check):
     level_note = ("Trusted: Lean kernel; translator (AST raise-site scan is a heuristic, stated); scripted sockets stand for the kernel; urllib verdicts are parameters; "
                   "name resolution in Client.redirect is scripted (IDNA encoding of the host as the runtime does it, then a fixed address).")
     quick_n = 500
-    thorough_n = 20000
+    thorough_n = 14000
     rule = ("cases: (srv) 1-4 connections (interleaved arrivals: one read per connection per service cycle, one or more malformed, some closing) to the WSGI Server or the BareServer, each a pipeline of grammar-generated requests, a near-valid table entry (colon without space, "
             "parameter-syntax damage of every header the code interprets by name (list read from the source), signed / 0x / non-hex chunk size, chunk extension, bad port / IPv6, bad method / version, 101 headers, 66 kB line, non UTF-8 body) or mutated / raw random bytes, "
             "fragmented per service cycle, some closing; (cli) the Client on a response table (redirects without / with bad / relative / insecure Location, 100-continue, bad UTF-8 "
@@ -73,6 +73,14 @@ class C16(core.Check):
                 if len(d) > 60000:      # the same delivered in two reads: the not-found branch of the line search
                     cs.append(("srv", kind, ((d, (len(d) - 3,), False),)))
             cs.append(("srv", kind, ((good + good, (10,), True), (b"GET / HTTP/1.0\r\n\r\n", (), False), (NEAR[0], (3,), True))))
+        for kind in ("wsgi", "bare"):      # the same server object, a second round from the same peer addresses
+            r1 = ((good, (), False), (NEAR[0], (), False), (b"POST /p HTTP/1.1\r\nContent-Length: 9\r\n\r\nabc", (), False))
+            r2 = ((b"GET /2 HTTP/1.1\r\n\r\n", (), False), (good + good, (30,), False), (b"GET /3 HTTP/1.0\r\n\r\n", (), False))
+            cs.append(("srv2", kind, r1, r2))
+            cs.append(("srv2", kind, r2, r1))
+        for path in (b"/callraise", b"/iterraise", b"/httperror"):     # the application fails on one connection
+            for kind in ("wsgi", "bare"):
+                cs.append(("srv", kind, ((b"GET " + path + b" HTTP/1.1\r\n\r\n" + good, (), False), (good, (), False))))
         for d in RESP_NEAR:
             cs.append(("cli", d, (), True, "http"))
             cs.append(("cli", d, (5, 20), False, "http"))
@@ -123,7 +131,10 @@ class C16(core.Check):
     def generate(self, rng, n, tier):
         for _ in range(n):
             k = rng.random()
-            if k < 0.5:
+            if k < 0.06:
+                yield ("srv2", rng.choice(["wsgi", "bare"]), tuple(self._conn(rng) for _ in range(rng.choice([1, 2, 3]))),
+                       tuple(self._conn(rng) for _ in range(rng.choice([1, 2, 3]))))
+            elif k < 0.5:
                 yield ("srv", rng.choice(["wsgi", "bare"]), tuple(self._conn(rng) for _ in range(rng.choice([1, 2, 2, 3, 3, 4]))))
             elif k < 0.75:
                 m = rng.random()
@@ -164,9 +175,17 @@ class C16(core.Check):
     def compare_view(self, case, obs):
         return sx.dumps(hp.view_of(case, obs))
 
+    @hp.total
     def oracle(self, case, obs):
         bad = []
         k = case[0]
+        if k == "srv2":
+            second, fresh = obs
+            if second[0] is not None or fresh[0] is not None:
+                bad.append("exception-escaped-server-service")
+            elif second[1] != fresh[1]:
+                bad.append("reused-server-differs-from-fresh")      # state of the first round leaked into the second
+            return bad
         if k == "srv":
             multi, alone = obs
             if multi[0] is not None:
@@ -188,13 +207,19 @@ class C16(core.Check):
                 bad.append("exception-escaped-parser")
         return bad
 
+    @hp.safe(True)
     def nontrivial(self, case, obs):
+        if case[0] == "srv2":
+            return True
         if case[0] == "srv":
             return any(len(d) > 0 for d, _, _ in case[2])
         return len(hp.case_data(case)) > 0
 
+    @hp.safe(list)
     def features(self, case, obs):
-        f = [case[0] + (":" + case[1] if case[0] == "srv" else "")]
+        f = [case[0] + (":" + case[1] if case[0] in ("srv", "srv2") else "")]
+        if case[0] == "srv2":
+            return f
         if case[0] == "srv":
             multi = obs[0]
             f.append(f"conns:{len(case[2])}")
@@ -218,6 +243,7 @@ class C16(core.Check):
     def shrink(self, case):
         return hp.shrink_case(case)
 
+    @hp.safe(list)
     def mutate(self, rng, case):
         return list(hp.shrink_case(case))[:30]
 
